@@ -218,10 +218,12 @@ func (w *world) execOp(ti, oi int, op *proto.Op, st *opState) {
 		}
 		if len(o.PerEP) > 0 {
 			opts.PerEntryPointMap = map[string]msl.EntryPointResources{}
-			for _, ep := range o.EPNames {
+			for epi, ep := range o.EPNames {
 				res := msl.EntryPointResources{Resources: map[ir.ResourceBinding]msl.BindTarget{}}
 				for _, b := range o.PerEP {
-					slot := uint8(b.Target)
+					// different slots per entry point, so that picking the wrong
+					// entry's table shows in the output
+					slot := uint8((int(b.Target) + 7*epi) % 28)
 					buf, tex := slot, slot
 					res.Resources[ir.ResourceBinding{Group: b.Group, Binding: b.Binding.Binding}] = msl.BindTarget{
 						Buffer: &buf, Texture: &tex, Sampler: &msl.BindSamplerTarget{Slot: slot}, Mutable: true}
